@@ -459,3 +459,139 @@ fn number_typing(n: usize) {
 vk_harness!(c02_literal_typing_4, {
     number_typing(4);
 });
+
+// ---------------------------------------------------------------------------------------------------------------
+// The other scanners: radix literals, blanks, string literals
+
+fn scanner_alpha(k: u8) -> char {
+    match k {
+        0 => '&',
+        1 => 'H',
+        2 => 'h',
+        3 => '0',
+        4 => '7',
+        5 => '9',
+        6 => 'a',
+        7 => 'F',
+        8 => 'G',
+        9 => ' ',
+        10 => '\t',
+        11 => '"',
+        _ => ',',
+    }
+}
+
+//@ prop: C03 C16 C05
+//@ tier: quick
+//@ unwind: 20
+//@ kind: termination
+//@ encodes: BasicLexer::radix
+//@ bounds: '&' followed by 3 characters over & H h 0 7 9 a F G blank tab quote comma; progress budget + unwinding assertion
+vk_harness!(c16_radix_scanner, {
+    let mut lx = BasicLexer { chars: VecDeque::default(), pending: VecDeque::default(), remark: false };
+    lx.chars.push_back('&');
+    let mut t = [' '; 3];
+    let mut i = 0;
+    while i < 3 {
+        t[i] = scanner_alpha(vk::any_below(13));
+        lx.chars.push_back(t[i]);
+        i += 1;
+    }
+    crate::vshim::collections::set_fuel(12);
+    let tok = lx.radix();
+    // reference: optional H/h selects hexadecimal, then the longest run of digits of that base, upper-cased
+    let hex = t[0] == 'H' || t[0] == 'h';
+    let mut want = String::new();
+    let mut j = if hex { 1 } else { 0 };
+    while j < 3 {
+        let c = t[j].to_ascii_uppercase();
+        let ok = (c >= '0' && c <= '7') || (hex && ((c >= '8' && c <= '9') || (c >= 'A' && c <= 'F')));
+        if !ok {
+            break;
+        }
+        want.push(c);
+        j += 1;
+    }
+    match tok {
+        Some(Token::Literal(Literal::Hex(s))) => vk_check!(hex && s == want, "C16: &H literals take hexadecimal digits of either case and list them in upper case"),
+        Some(Token::Literal(Literal::Octal(s))) => vk_check!(!hex && s == want, "C16: & literals take octal digits"),
+        _ => vk_check!(false, "C03: the radix scanner always returns a literal"),
+    }
+    vk_check!(lx.chars.len() == 3 - j, "C05: the radix scanner leaves exactly the characters after the digits");
+    vk_cover!(hex && j == 3, "reach: two hex digits");
+    vk_cover!(!hex && j == 0, "reach: empty octal literal");
+    core::mem::forget(lx);
+});
+
+//@ prop: C03 C05
+//@ tier: quick
+//@ unwind: 20
+//@ kind: termination
+//@ encodes: BasicLexer::whitespace; BasicLexer::string
+//@ bounds: 4 characters over the scanner alphabet, the first one a blank / tab (whitespace scanner) or a double quote (string scanner)
+vk_harness!(c05_blank_and_string_scanners, {
+    let mut lx = BasicLexer { chars: VecDeque::default(), pending: VecDeque::default(), remark: false };
+    let is_string = vk::any_bool();
+    let mut t = [' '; 4];
+    let mut i = 0;
+    while i < 4 {
+        t[i] = scanner_alpha(vk::any_below(13));
+        i += 1;
+    }
+    t[0] = if is_string { '"' } else if vk::any_bool() { ' ' } else { '\t' };
+    let mut k = 0;
+    while k < 4 {
+        lx.chars.push_back(t[k]);
+        k += 1;
+    }
+    crate::vshim::collections::set_fuel(12);
+    if is_string {
+        let tok = lx.string();
+        // everything up to the closing quote (or the end of the line), character for character
+        let mut want = String::new();
+        let mut j = 1;
+        while j < 4 && t[j] != '"' {
+            want.push(t[j]);
+            j += 1;
+        }
+        let consumed = if j < 4 { j + 1 } else { 4 };
+        match tok {
+            Some(Token::Literal(Literal::String(s))) => vk_check!(s == want, "C05: a string literal is preserved character for character"),
+            _ => vk_check!(false, "C03: the string scanner always returns a literal"),
+        }
+        vk_check!(lx.chars.len() == 4 - consumed, "C05: the string scanner consumes the literal and its closing quote only");
+    } else {
+        let tok = lx.whitespace();
+        let mut n = 1;
+        while n < 4 && (t[n] == ' ' || t[n] == '\t') {
+            n += 1;
+        }
+        match tok {
+            Some(Token::Whitespace(w)) => vk_check!(w == n, "C05: a run of blanks is one token recording its length"),
+            _ => vk_check!(false, "C03: the blank scanner always returns a token"),
+        }
+        vk_check!(lx.chars.len() == 4 - n, "C05: the blank scanner consumes exactly the run of blanks");
+    }
+    vk_cover!(is_string, "reach: string literal");
+    vk_cover!(!is_string, "reach: blanks");
+    core::mem::forget(lx);
+});
+
+//@ prop: C03
+//@ tier: thorough
+//@ unwind: 24
+//@ kind: termination
+//@ encodes: BasicLexer::number (loop with push-back)
+//@ bounds: every string of 5 characters over the numeric alphabet that starts with a digit or '.'; progress budget 3n+3 pops plus the unwinding assertion
+vk_harness!(c03_number_scanner_returns_5, {
+    number_returns(5);
+});
+
+//@ prop: C02
+//@ tier: thorough
+//@ unwind: 24
+//@ encodes: BasicLexer::number (literal classification)
+//@ bounds: every string of 5 characters over the numeric alphabet starting with a digit or '.'
+vk_harness!(c02_literal_typing_5, {
+    number_typing(5);
+});
